@@ -46,6 +46,15 @@
  *     the k-th allocation attempt of the library fails once during the
  *     history <spec> (key expansions, crypto_aes_can_use_intrinsics, blocks,
  *     CTR streams); see common/aes_oomhist.h.
+ *
+ * Faulty-hardware environment (AES-NI builds; line protocol as above):
+ *  c02 --faulty-aesni=<16|32>
+ *     crypto_aes_key_expand_aesni (interposed with -Wl,--wrap) delivers one
+ *     wrong round-key bit for EVERY key of that many bytes, as on a CPU or
+ *     emulator whose AES instructions misbehave for one key size.  The
+ *     library's start-up self-test has a vector for each key size; whatever
+ *     it then selects, the answers must still equal the reference.  The I
+ *     line answers "intr=<n> faults=<number of damaged keys delivered>".
  */
 #define _GNU_SOURCE	/* memfd_create */
 #include "vh.h"
@@ -56,11 +65,33 @@
 
 #include <openssl/evp.h>
 
+#include "cpusupport.h"
 #include "crypto_aes.h"
 #include "crypto_aesctr.h"
 #include "refaes.h"
 #include "wrapalloc.h"
 #include "aes_oomhist.h"
+
+/* --faulty-aesni=<len>: AES-NI key expansion is wrong for keys of len bytes. */
+static size_t faulty_keylen;
+static uint64_t n_faults;
+
+#if defined(CPUSUPPORT_X86_AESNI)
+void * __real_crypto_aes_key_expand_aesni(const uint8_t *, size_t);
+void * __wrap_crypto_aes_key_expand_aesni(const uint8_t *, size_t);
+void *
+__wrap_crypto_aes_key_expand_aesni(const uint8_t * key, size_t len)
+{
+	uint8_t * k = __real_crypto_aes_key_expand_aesni(key, len);
+
+	/* Byte 47 lies inside the round keys wherever they are aligned. */
+	if (k != NULL && faulty_keylen != 0 && len == faulty_keylen) {
+		k[47] ^= 0x10;
+		n_faults++;
+	}
+	return (k);
+}
+#endif
 
 /*
  * Every other case (decided by a hash of the case line, so a replayed line
@@ -538,7 +569,11 @@ main(int argc, char ** argv)
 	 * c02 oomhist <k> <spec> [<seed>]: one "an allocation fails, then
 	 * memory is back" history in this (fresh) process; common/aes_oomhist.h.
 	 */
-	if (argc > 1) {
+	if (argc > 1 && strncmp(argv[1], "--faulty-aesni=", 15) == 0) {
+		faulty_keylen = (size_t)strtoul(argv[1] + 15, NULL, 10);
+		if (argc != 2 || (faulty_keylen != 16 && faulty_keylen != 32))
+			vh_die("bad argument '%s'", argv[1]);
+	} else if (argc > 1) {
 		if (strcmp(argv[1], "oomhist") != 0)
 			vh_die("bad argument '%s'", argv[1]);
 		return (aes_oomhist_main(argc, argv, 1, NULL));
@@ -558,7 +593,12 @@ main(int argc, char ** argv)
 			g_mis = (int)((h >> 17) & 1);
 		}
 		if (op[0] == 'I') {
-			printf("R intr=%d\n", crypto_aes_can_use_intrinsics());
+			if (faulty_keylen)
+				printf("R intr=%d faults=%" PRIu64 "\n",
+				    crypto_aes_can_use_intrinsics(), n_faults);
+			else
+				printf("R intr=%d\n",
+				    crypto_aes_can_use_intrinsics());
 		} else if (op[0] == 'B') {
 			struct keyinfo k;
 			size_t blen, i, nb;
